@@ -6,6 +6,7 @@
   set" is always `Bitmap.mem`.
 -/
 import Hw.Io.CalcLemmas
+import Hw.Io.CalcStdin
 import Hw.Bitmap.Order
 import Hw.Bitmap.CompareFirst
 namespace Hw.Props.C20
@@ -283,8 +284,74 @@ theorem C20_distrib_invalid_number (s : DSt) (a : Bytes) (rest : List Bytes) (hn
     · rw [hn] at h; cases h
     · simp only [h]
 
+/-! ### stdin mode (no location on the command line): line by line, every line from a fresh state -/
+
+/-- a stdin line is computed from a fresh state: the cpuset and the nodeset the state holds when the line starts (what the command
+    line or an earlier line left there) are not read — under every option, in particular without `-n`, `--ni`, `--no`, `--nof` -/
+theorem C20_calc_stdin_line_fresh (c : Ctx) (s : St) (cfg : OutCfg) (line : Bytes) (a b : Bitmap) :
+    lineOut c { s with cpuset := a, nodeset := b } cfg line = lineOut c s cfg line := rfl
+
+/-- the output of line k depends only on line k and the options: a successful stdin run prints exactly the concatenation of what
+    the lines before, the line itself and the lines after print when each is the whole input -/
+theorem C20_calc_stdin_lines_independent (c : Ctx) (s : St) (cfg : OutCfg) (l1 : List Bytes) (l : Bytes) (l2 : List Bytes)
+    (acc out : Bytes) (h : stdinLoop c s cfg (l1 ++ l :: l2) acc = .exit 0 (some out)) :
+    ∃ o1 o o2, out = acc ++ o1 ++ o ++ o2 ∧ stdinLoop c s cfg l1 [] = .exit 0 (some o1) ∧
+      stdinLoop c s cfg [l] [] = .exit 0 (some o) ∧ stdinLoop c s cfg l2 [] = .exit 0 (some o2) :=
+  stdinLoop_split c s cfg l1 l l2 acc out h
+
+/-- … and it is what the command line computes: for an option list `opts` without accepted location (`nlocs = 0`) and with `-q`
+    (no banner), a successful stdin run prints one block per input line, and block k equals the stdout of
+    `hwloc-calc opts <locations of line k>` whenever that run succeeds and prints something (a command line whose locations are all
+    ignored reads its own stdin instead).  This is the relation the `SL` runs of the engine check on the real tool. -/
+theorem C20_calc_stdin_line_eq_cmdline (d : Dump) (opts : List Bytes) (s : St) (stdin out : Bytes)
+    (hloop : argLoop (mkCtx d) {} opts = .ok s) (hn : s.nlocs = 0) (hq : s.verbose < 0)
+    (h1 : calcMain d opts stdin = .exit 0 (some out)) :
+    ∃ outs : List Bytes, outs.length = (linesOf stdin).length ∧ out = outs.flatten ∧
+      ∀ (k : Nat) (hk : k < (linesOf stdin).length) (hk' : k < outs.length) (o : Bytes),
+        (∀ t ∈ tokensOf (linesOf stdin)[k], t.head? ≠ some 45) →
+        calcMain d (opts ++ tokensOf (linesOf stdin)[k]) [] = .exit 0 (some o) → o ≠ [] → outs[k] = o :=
+  stdin_eq_cmdline d opts s stdin out hloop hn hq h1
+
 /-! ### non-vacuity -/
 
+/-- the dump of the synthetic topology `core:2 pu:1` (Machine, 2 Cores, 2 PUs, 1 NUMANode), as printed by harness/dump.h -/
+def exDump : Dump :=
+  { flags := 0, depth := 3, root := 0, nobjs := 6, allowedCpuset := some 0x3, allowedNodeset := some 0x1,
+    filters := [0, 0, 0, 0, 0, 0, 0, 0, 0, 0, 1, 1, 1, 2, 0, 1, 1, 1, 1, 1],
+    objs := [
+    { id := 0, type := 0, depth := 0, lidx := 0, osidx := 0, gp := 1, parent := (-1), rank := 0, arity := 2, marity := 1, ioarity := 0, miscarity := 0,
+      nextSib := (-1), prevSib := (-1), nextCousin := (-1), prevCousin := (-1), firstChild := 1, lastChild := 3, memFirst := 5, ioFirst := (-1), miscFirst := (-1), symm := 1,
+      cpuset := some 0x3, ccpuset := some 0x3, nodeset := some 0x1, cnodeset := some 0x1, totalMem := 1073741824, attrs := [0, 0, 0, 0, 0, 0], children := [1, 3], subtype := none, name := none, infos := [] },
+    { id := 1, type := 3, depth := 1, lidx := 0, osidx := 0, gp := 3, parent := 0, rank := 0, arity := 1, marity := 0, ioarity := 0, miscarity := 0,
+      nextSib := 3, prevSib := (-1), nextCousin := 3, prevCousin := (-1), firstChild := 2, lastChild := 2, memFirst := (-1), ioFirst := (-1), miscFirst := (-1), symm := 1,
+      cpuset := some 0x1, ccpuset := some 0x1, nodeset := some 0x1, cnodeset := some 0x1, totalMem := 0, attrs := [0, 0, 0, 0, 0, 0], children := [2], subtype := none, name := none, infos := [] },
+    { id := 2, type := 4, depth := 2, lidx := 0, osidx := 0, gp := 2, parent := 1, rank := 0, arity := 0, marity := 0, ioarity := 0, miscarity := 0,
+      nextSib := (-1), prevSib := (-1), nextCousin := 4, prevCousin := (-1), firstChild := (-1), lastChild := (-1), memFirst := (-1), ioFirst := (-1), miscFirst := (-1), symm := 1,
+      cpuset := some 0x1, ccpuset := some 0x1, nodeset := some 0x1, cnodeset := some 0x1, totalMem := 0, attrs := [0, 0, 0, 0, 0, 0], children := [], subtype := none, name := none, infos := [] },
+    { id := 3, type := 3, depth := 1, lidx := 1, osidx := 1, gp := 5, parent := 0, rank := 1, arity := 1, marity := 0, ioarity := 0, miscarity := 0,
+      nextSib := (-1), prevSib := 1, nextCousin := (-1), prevCousin := 1, firstChild := 4, lastChild := 4, memFirst := (-1), ioFirst := (-1), miscFirst := (-1), symm := 1,
+      cpuset := some 0x2, ccpuset := some 0x2, nodeset := some 0x1, cnodeset := some 0x1, totalMem := 0, attrs := [0, 0, 0, 0, 0, 0], children := [4], subtype := none, name := none, infos := [] },
+    { id := 4, type := 4, depth := 2, lidx := 1, osidx := 1, gp := 4, parent := 3, rank := 0, arity := 0, marity := 0, ioarity := 0, miscarity := 0,
+      nextSib := (-1), prevSib := (-1), nextCousin := (-1), prevCousin := 2, firstChild := (-1), lastChild := (-1), memFirst := (-1), ioFirst := (-1), miscFirst := (-1), symm := 1,
+      cpuset := some 0x2, ccpuset := some 0x2, nodeset := some 0x1, cnodeset := some 0x1, totalMem := 0, attrs := [0, 0, 0, 0, 0, 0], children := [], subtype := none, name := none, infos := [] },
+    { id := 5, type := 14, depth := (-3), lidx := 0, osidx := 0, gp := 6, parent := 0, rank := 0, arity := 0, marity := 0, ioarity := 0, miscarity := 0,
+      nextSib := (-1), prevSib := (-1), nextCousin := (-1), prevCousin := (-1), firstChild := (-1), lastChild := (-1), memFirst := (-1), ioFirst := (-1), miscFirst := (-1), symm := 0,
+      cpuset := some 0x3, ccpuset := some 0x3, nodeset := some 0x1, cnodeset := some 0x1, totalMem := 1073741824, attrs := [1073741824, 1, 0, 0, 0, 0], children := [], subtype := none, name := none, infos := [] }],
+    levels := [⟨0, 0, [0]⟩, ⟨1, 3, [1, 3]⟩, ⟨2, 4, [2, 4]⟩, ⟨(-3), 14, [5]⟩, ⟨(-4), 16, []⟩, ⟨(-5), 17, []⟩, ⟨(-6), 18, []⟩, ⟨(-7), 19, []⟩, ⟨(-8), 15, []⟩],
+    typeDepths := [0, (-1), (-1), 1, 2, (-1), (-1), (-1), (-1), (-1), (-1), (-1), (-1), (-1), (-3), (-8), (-4), (-5), (-6), (-7)] }
+
+/-- stdin mode on `core:2 pu:1` (one NUMA node): `-q -N numa` fed "pu:0", "0x0", "" and "zzz:0 pu:1" prints 1, 0, 0, 1 — the node
+    selected by the first line is not counted for the second and third — and each block is the command-line output -/
+example : calcMain exDump [str "-q", str "-N", str "numa"] (str "pu:0\n0x0\n\nzzz:0 pu:1\n") = .exit 0 (some (str "1\n0\n0\n1\n")) := by decide
+example : calcMain exDump [str "-q", str "-N", str "numa", str "pu:0"] [] = .exit 0 (some (str "1\n")) := by decide
+example : calcMain exDump [str "-q", str "-N", str "numa", str "0x0"] [] = .exit 0 (some (str "0\n")) := by decide
+example : calcMain exDump [str "-q", str "-N", str "numa", str "zzz:0", str "pu:1"] [] = .exit 0 (some (str "1\n")) := by decide
+/-- the hypotheses of `C20_calc_stdin_line_eq_cmdline` on that option list: no accepted location, no banner -/
+example : (match argLoop (mkCtx exDump) {} [str "-q", str "-N", str "numa"] with
+    | .ok s => s.nlocs == 0 && decide (s.verbose < 0)
+    | .error _ => false) = true := by decide
+example : linesOf (str "pu:0\n0x0\n\nzzz:0 pu:1\n") = [str "pu:0", str "0x0", [], str "zzz:0 pu:1"] ∧ linesOf (str "a\nb") = [str "a", str "b"] ∧
+    tokensOf (str " zzz:0  pu:1 ") = [str "zzz:0", str "pu:1"] := by decide
 /-- the operators on concrete sets: `0x0f ~0x03 x0x0e ^0x18` -/
 example : (applyMode .xor (applyMode .and (applyMode .clr (applyMode .add Bitmap.alloc (ofMask 0x0f)) (ofMask 0x03)) (ofMask 0x0e)) (ofMask 0x18)).mem 4 = true := by decide
 example : parseRange (str "3-0") = .err := by decide
